@@ -10,28 +10,96 @@ Proof.
   intro H. apply N.eqb_eq in H. subst. reflexivity.
 Qed.
 
-Lemma size_zero_eval : forall c s a m, is_size_zero c = true -> eval_zcond s a m c = Some (s =? 0).
+Definition pval (s a m : N) (p : zprop) : bool :=
+  match p with PSizeZero => s =? 0 | PAlignFits => a <=? m end.
+
+Ltac nbool :=
+  repeat match goal with
+         | |- context [?x =? ?y] => destruct (N.eqb_spec x y)
+         | |- context [?x <=? ?y] => destruct (N.leb_spec x y)
+         | |- context [?x <? ?y] => destruct (N.ltb_spec x y)
+         end; simpl; try reflexivity; try (exfalso; lia).
+
+Ltac zsubst :=
+  repeat match goal with
+         | H : (_ && _)%bool = true |- _ => apply andb_prop in H; destruct H
+         | H : zexpr_eqb _ _ = true |- _ => apply zexpr_eqb_eq in H; subst
+         end.
+
+(** A recognised comparison evaluates to the fact it was recognised as. *)
+Lemma classify_sound : forall c p pos s a m,
+  classify_atom c = Some (p, pos) -> eval_zcond s a m c = Some (lit_val (pval s a m p) pos).
 Proof.
-  intros c s a m H. destruct c; simpl in H; try discriminate.
-  apply orb_prop in H. destruct H as [H | H]; apply andb_prop in H; destruct H as [H1 H2];
-    apply zexpr_eqb_eq in H1; apply zexpr_eqb_eq in H2; subst; simpl; [reflexivity|].
-  rewrite N.eqb_sym. reflexivity.
+  intros c p pos s a m H.
+  destruct c as [x y | x y | x y | | | | | ]; simpl in H; try discriminate.
+  - destruct ((zexpr_eqb x ZSizeOf && zexpr_eqb y (ZLit 0)) || (zexpr_eqb x (ZLit 0) && zexpr_eqb y ZSizeOf))%bool eqn:E;
+      [|discriminate].
+    injection H as <- <-. apply orb_prop in E. destruct E as [E | E]; zsubst; cbn [eval_zcond eval_zexpr lift2 lit_val pval]; nbool.
+  - destruct (zexpr_eqb x ZAlignOf && zexpr_eqb y ZMaxAlign)%bool eqn:E1.
+    { injection H as <- <-. zsubst. reflexivity. }
+    destruct (zexpr_eqb x ZSizeOf && zexpr_eqb y (ZLit 0))%bool eqn:E2.
+    { injection H as <- <-. zsubst. cbn [eval_zcond eval_zexpr lift2 lit_val pval]. nbool. }
+    destruct (zexpr_eqb x (ZLit 1) && zexpr_eqb y ZSizeOf)%bool eqn:E3; [|discriminate].
+    injection H as <- <-. zsubst. cbn [eval_zcond eval_zexpr lift2 lit_val pval]. nbool.
+  - destruct (zexpr_eqb x ZMaxAlign && zexpr_eqb y ZAlignOf)%bool eqn:E1.
+    { injection H as <- <-. zsubst. cbn [eval_zcond eval_zexpr lift2 lit_val pval]. nbool. }
+    destruct (zexpr_eqb x ZSizeOf && zexpr_eqb y (ZLit 1))%bool eqn:E2.
+    { injection H as <- <-. zsubst. cbn [eval_zcond eval_zexpr lift2 lit_val pval]. nbool. }
+    destruct (zexpr_eqb x (ZLit 0) && zexpr_eqb y ZSizeOf)%bool eqn:E3; [|discriminate].
+    injection H as <- <-. zsubst. cbn [eval_zcond eval_zexpr lift2 lit_val pval]. nbool.
 Qed.
 
-Lemma align_le_eval : forall c s a m, is_align_le_max c = true -> eval_zcond s a m c = Some (a <=? m).
+Lemma peval_atom : forall c s a m v,
+  match classify_atom c with
+  | Some (PSizeZero, pos) => Some (lit_val (s =? 0) pos)
+  | Some (PAlignFits, pos) => Some (lit_val (a <=? m) pos)
+  | None => None
+  end = Some v -> eval_zcond s a m c = Some v.
 Proof.
-  intros c s a m H. destruct c; simpl in H; try discriminate.
-  apply andb_prop in H. destruct H as [H1 H2].
-  apply zexpr_eqb_eq in H1; apply zexpr_eqb_eq in H2; subst. reflexivity.
+  intros c s a m v H. destruct (classify_atom c) as [[p pos]|] eqn:E; [|discriminate].
+  rewrite (classify_sound c p pos s a m E). destruct p; exact H.
 Qed.
 
-Lemma canonical_eval : forall c s a m,
-  zcond_canonical c = true -> eval_zcond s a m c = Some ((s =? 0) && (a <=? m))%bool.
+(** The propositional reading is sound for the arithmetic one, with [P := size == 0] and
+    [Q := align <= MAX_ALIGN]. *)
+Lemma peval_sound : forall c s a m v,
+  peval (s =? 0) (a <=? m) c = Some v -> eval_zcond s a m c = Some v.
 Proof.
-  intros c s a m H. destruct c; simpl in H; try discriminate.
-  apply orb_prop in H. destruct H as [H | H]; apply andb_prop in H; destruct H as [H1 H2]; simpl.
-  - rewrite (size_zero_eval _ s a m H1), (align_le_eval _ s a m H2). reflexivity.
-  - rewrite (size_zero_eval _ s a m H1), (align_le_eval _ s a m H2). simpl. rewrite andb_comm. reflexivity.
+  induction c as [x y | x y | x y | c1 IH1 c2 IH2 | c1 IH1 c2 IH2 | c1 IH1 | | u]; intros s a m v H.
+  - apply peval_atom. exact H.
+  - apply peval_atom. exact H.
+  - apply peval_atom. exact H.
+  - simpl in H. destruct (peval (s =? 0) (a <=? m) c1) as [v1|] eqn:E1; [|discriminate].
+    destruct (peval (s =? 0) (a <=? m) c2) as [v2|] eqn:E2; [|discriminate].
+    simpl. rewrite (IH1 _ _ _ _ E1), (IH2 _ _ _ _ E2). exact H.
+  - simpl in H. destruct (peval (s =? 0) (a <=? m) c1) as [v1|] eqn:E1; [|discriminate].
+    destruct (peval (s =? 0) (a <=? m) c2) as [v2|] eqn:E2; [|discriminate].
+    simpl. rewrite (IH1 _ _ _ _ E1), (IH2 _ _ _ _ E2). exact H.
+  - simpl in H. destruct (peval (s =? 0) (a <=? m) c1) as [v1|] eqn:E1; [|discriminate].
+    simpl. rewrite (IH1 _ _ _ _ E1). exact H.
+  - exact H.
+  - discriminate.
+Qed.
+
+Lemma pbody_sound : forall b s a m v,
+  pbody (s =? 0) (a <=? m) b = Some v -> body_hit s a m b = Some v.
+Proof.
+  induction b as [ | | c t IHt e IHe | u]; intros s a m v H; simpl in *; try exact H.
+  destruct (peval (s =? 0) (a <=? m) c) as [vc|] eqn:E; [|discriminate].
+  rewrite (peval_sound _ _ _ _ _ E). destruct vc; [apply IHt | apply IHe]; exact H.
+Qed.
+
+Lemma canonical_eval : forall b s a m,
+  zbody_canonical b = true -> body_hit s a m b = Some ((s =? 0) && (a <=? m))%bool.
+Proof.
+  intros b s a m H. unfold zbody_canonical in H. simpl in H.
+  repeat rewrite andb_true_iff in H. destruct H as [Htt [Htf [Hft [Hff _]]]].
+  apply pbody_sound.
+  destruct (s =? 0), (a <=? m); simpl in *.
+  - destruct (pbody true true b) as [v|]; [|discriminate]. apply eqb_prop in Htt. congruence.
+  - destruct (pbody true false b) as [v|]; [|discriminate]. apply eqb_prop in Htf. congruence.
+  - destruct (pbody false true b) as [v|]; [|discriminate]. apply eqb_prop in Hft. congruence.
+  - destruct (pbody false false b) as [v|]; [|discriminate]. apply eqb_prop in Hff. congruence.
 Qed.
 
 Lemma pow2_divide : forall k j, 2 ^ k <= 2 ^ j -> (2 ^ k | 2 ^ j).
@@ -44,7 +112,7 @@ Qed.
     cache's, and -- alignments being powers of two and the anchor being aligned to [MAX_ALIGN] -- the
     pointer is aligned for the type. *)
 Theorem zst_cond_sound : forall c anchor size align maxa k j p,
-  zcond_canonical c = true ->
+  zbody_canonical c = true ->
   align = 2 ^ k -> maxa = 2 ^ j -> anchor mod maxa = 0 ->
   alloc_zst_model c anchor size align maxa = Some p ->
   size = 0 /\ align <= maxa /\ p = anchor /\ p mod align = 0.
@@ -66,7 +134,7 @@ Qed.
 (** Conversely the anchor is handed out whenever the type is zero-sized with a small enough alignment
     (so the cache hit is decided by exactly that condition). *)
 Theorem zst_cond_complete : forall c anchor size align maxa,
-  zcond_canonical c = true -> size = 0 -> align <= maxa ->
+  zbody_canonical c = true -> size = 0 -> align <= maxa ->
   alloc_zst_model c anchor size align maxa = Some anchor.
 Proof.
   intros c anchor size align maxa Hc Hs Hl.
@@ -75,7 +143,7 @@ Proof.
 Qed.
 
 Theorem zst_cond_none : forall c anchor size align maxa,
-  zcond_canonical c = true -> (size <> 0 \/ maxa < align) ->
+  zbody_canonical c = true -> (size <> 0 \/ maxa < align) ->
   alloc_zst_model c anchor size align maxa = None.
 Proof.
   intros c anchor size align maxa Hc H.
